@@ -46,6 +46,7 @@ def run(ctx):
     for kind in ("cubic", "quad"):
         generator(ctx, kind)
     path_level(ctx)
+    slice_count_uncapped(ctx)
     # both converters take their first parameter from get_start_t() = t_at_point(point_at_angle(start angle)); with the wrong
     # parameter the chain still starts and ends at the arc's end points but every joint in between is on the other half of
     # the ellipse
@@ -384,3 +385,14 @@ def path_level(ctx):
         if isinstance(x, ast.If) and isinstance(x.test, ast.Call) and call_name(x.test) == "isinstance" and len(x.test.args) == 2 and isinstance(x.test.args[1], ast.Name) and x.test.args[1].id == "slice":
             ok = ok or any(isinstance(c, ast.Call) and attr_chain(c.func) == ["self", "validate_connections"] for y in x.body for c in ast.walk(y))
     ctx.ob("R19.4", "Path.__setitem__[slice revalidates]", ok, "", si.lineno, "slice assignment must re-link starts and ends of all segments")
+
+
+def slice_count_uncapped(ctx):
+    """Path.approximate_arcs_with_cubics / _quads derive the number of curves from |sweep| / (tau x error).  An Arc may sweep more
+    than one turn (explicit-sweep constructor), so the count must grow with the sweep: clamping it from above (min(count, ...))
+    makes the curves of a long arc wider than the error asked for."""
+    for q in ("Path.approximate_arcs_with_cubics", "Path.approximate_arcs_with_quads"):
+        fn = ctx.fn(q, "R19.3")
+        caps = [c for c in ast.walk(fn) if isinstance(c, ast.Call) and call_name(c) == "min"]
+        ctx.ob("R19.3", "%s[slice count grows with the sweep]" % q, not caps, "; ".join(ast.unparse(c)[:50] for c in caps), fn.lineno,
+               "a 2.5-turn arc at error 0.1 needs 25 curves; capped at one turn's worth it gets 10 and leaves the ellipse by 2 % of the radius")
